@@ -66,6 +66,8 @@ def roots(tier, seed):
                                     dev = dev and n <= 2
                                 case["explore"] = 1 if dev else 0
                                 out.append(case)
+    from .. import cover
+    out += cover.roots_for(tier, monitors=["pts"])
     return alpha.permute(out, seed)
 
 
